@@ -28,6 +28,8 @@ class Outside(Exception):
 
 BINOPS = {ast.Add: "add", ast.Sub: "sub", ast.Mult: "mul", ast.Div: "div", ast.Mod: "mod", ast.Pow: "pow",
           ast.BitAnd: "and", ast.BitXor: "xor", ast.LShift: "sll", ast.RShift: "srl"}
+# only inside @constexpr bodies (ordinary Python evaluation): on integers `|` is the bitwise or of IC10's `or`
+BINOPS_PY = {ast.BitOr: "or"}
 CMPOPS = {ast.Eq: "eq", ast.NotEq: "ne", ast.Lt: "lt", ast.LtE: "le", ast.Gt: "gt", ast.GtE: "ge"}
 FUN1 = {"abs", "ceil", "floor", "round", "trunc", "sqrt", "exp", "log", "sin", "cos", "tan", "asin", "acos", "atan"}
 FUN2 = {"max", "min", "atan2", "mod", "pow", "add", "sub", "mul", "div", "xor", "nor", "sll", "srl", "sra", "sla"}
@@ -128,6 +130,7 @@ class Conv:
         self.structs = {}    # (module, name) -> ("pin", pin) | ("plural", prefab) | ("named", prefab, namehash)
         self.lists = {}      # (module, scope, name) -> list of constants
         self.shapes = set()  # syntactic features, for matching listed findings
+        self.constexpr = set()
 
     # ---- node table ------------------------------------------------------------------
     def node(self, kind, op="", name="", ch=(), body=(), orelse=(), val=None, vals=(), sc=""):
@@ -278,6 +281,10 @@ class Conv:
             sc, q = self.var(e.id)
             return self.node("name", sc=sc, name=q)
         if isinstance(e, ast.BinOp):
+            if type(e.op) in BINOPS_PY and self.in_constexpr:
+                return self.node("bin", op=BINOPS_PY[type(e.op)], ch=[self.expr(e.left), self.expr(e.right)])
+            if isinstance(e.op, ast.FloorDiv) and self.in_constexpr:
+                return self.node("un", op="floor", ch=[self.node("bin", op="div", ch=[self.expr(e.left), self.expr(e.right)])])
             if type(e.op) not in BINOPS:
                 raise Outside("operator " + type(e.op).__name__)
             return self.node("bin", op=BINOPS[type(e.op)], ch=[self.expr(e.left), self.expr(e.right)])
@@ -468,8 +475,12 @@ class Conv:
                 for a in s.names:
                     self.alias[a.asname or a.name] = a.name
             if isinstance(s, ast.FunctionDef):
-                if s.decorator_list or s.args.vararg or s.args.kwarg or s.args.defaults or s.args.kwonlyargs:
+                decos = [dd.id if isinstance(dd, ast.Name) else "?" for dd in s.decorator_list]
+                if decos not in ([], ["constexpr"]) or s.args.vararg or s.args.kwarg or s.args.defaults or s.args.kwonlyargs:
                     raise Outside("function form")
+                if decos:
+                    # a @constexpr function means what calling it means (C12): the source machine simply calls it
+                    self.constexpr.add((mod + "." + s.name) if mod else s.name)
                 self.fn_defs[(mod + "." + s.name) if mod else s.name] = len(s.args.args)
         for n in ast.walk(tree):
             if isinstance(n, ast.Name) and isinstance(n.ctx, ast.Store):
@@ -503,6 +514,7 @@ class Conv:
     def convert(self):
         self.fn_defs = {}
         self.assigned_globals = set()
+        self.in_constexpr = False
         for m, t in self.trees.items():
             self.prescan(m, t)
         order = [m for m in self.trees if m != ""] + [""]
@@ -514,8 +526,10 @@ class Conv:
             for s in tree.body:
                 if isinstance(s, ast.FunctionDef):
                     self.locals, self.scope_name = self.assigned_names(s), s.name
+                    self.in_constexpr = bool(s.decorator_list)
                     self.bind_static(m, s.name, s.body)
                     body = self.block(s.body)
+                    self.in_constexpr = False
                     self.funcs[(m + "." + s.name) if m else s.name] = {"params": [a.arg for a in s.args.args], "body": body}
                     self.locals, self.scope_name = None, ""
             stmts = tree.body
